@@ -186,7 +186,51 @@ def replay_wiring(args):
     return (True, f"{args['kind']}_{args['flav']} {args['proc']} {args['sch']} nf={args['nf']}: {bad[:4]}") if bad else (False, "masses wired correctly")
 
 
-REPLAYERS = {"wiring": replay_wiring, "hadronic": replay_hadronic, "partonic": replay_partonic, "cc_point": replay_cc_point,
+ESF_CELLS = [
+    dict(name="F2_charm NC FFNS3 pto1", obs="F2_charm", process="NC", pid=11, scheme="FFNS", nf=3, ZMq=(False, False, False), pto=1),
+    dict(name="F2_total NC FFNS3 pto2", obs="F2_total", process="NC", pid=11, scheme="FFNS", nf=3, ZMq=(False, False, False), pto=2),
+    dict(name="FL_light EM FFNS3 pto2", obs="FL_light", process="EM", pid=11, scheme="FFNS", nf=3, ZMq=(False, False, False), pto=2),
+    dict(name="F2_charm NC FONLL pto1", obs="F2_charm", process="NC", pid=11, scheme="FONLL-FFNS", nf=3, ZMq=(False, True, True), pto=1),
+    dict(name="g1_charm NC FFNS3 pto1", obs="g1_charm", process="NC", pid=11, scheme="FFNS", nf=3, ZMq=(False, False, False), pto=1),
+]
+
+
+def esf_heavy_nc_calls(ctx, cell, x, Q2, m2c):
+    """Real ESF.compute_local (quadrature recorded): the RSLs that are actually convolved for heavy-quark NC pair-production channels."""
+    import yadism.coefficient_functions as cf
+    from yv.props import c01
+
+    e, records, basis = c01.run_assembly(ctx, cell, cm.ew_params(values={}), x, Q2, m2c, "t")
+    out, ri = [], 0
+    for k in cf.Combiner(e).collect_elems():
+        for o in e.orders:
+            if not k.has_order(o):
+                continue
+            if k.coeff[o]() is None:
+                continue
+            for _ in basis:
+                if ri >= len(records):
+                    out.append((type(k.coeff), o, None, None))
+                    continue
+                out.append((type(k.coeff), o, records[ri]["rsl"], getattr(k.coeff, "m2hq", None)))
+                ri += 1
+    return out, len(records) == ri
+
+
+def replay_esf_threshold(args):
+    cell = [c for c in ESF_CELLS if c["name"] == args["cell"]][0]
+    with cm.fixed_nf():
+        calls, _ = esf_heavy_nc_calls(None, cell, args["x"], args["Q2"], args["m2c"])
+    w2 = args["Q2"] * (1 - args["x"]) / args["x"]
+    bad = [f"{c.__module__.split('.')[-1]}.{c.__name__}/o{o} (m2={float(m2):g})" for c, o, rsl, m2 in calls
+           if rsl is not None and m2 is not None and ".heavy." in c.__module__ and c.__module__.endswith("_nc")
+           and not (rsl.reg is None and rsl.sing is None and rsl.loc is None) and w2 <= 4 * float(m2)]
+    if bad:
+        return True, f"{cell['name']} at x={args['x']}, Q2={args['Q2']}, m2c={args['m2c']} (W^2={w2:g} <= 4m^2): the ESF convolves {bad[:4]}"
+    return False, "nothing convolved below the threshold"
+
+
+REPLAYERS = {"esf_threshold": replay_esf_threshold, "wiring": replay_wiring, "hadronic": replay_hadronic, "partonic": replay_partonic, "cc_point": replay_cc_point,
              "empty_domain": replay_empty_domain}
 
 
@@ -202,6 +246,9 @@ def run(chk, only=None):
     from yadism.coefficient_functions.heavy import partonic_channel as hpc
     from yadism.esf import conv
 
+    from yadism.esf import esf as _esfmod
+
+    chk.encode(_esfmod.EvaluatedStructureFunction.compute_local)
     chk.encode(hpc.NeutralCurrentBase.__init__, hpc.NeutralCurrentBase.decorator, hpc.NeutralCurrentBase.is_below_pair_threshold,
                hpc.ChargedCurrentBase.__init__, hpc.ChargedCurrentBase.convolution_point, conv.convolution)
     chk.bounds = {"x, z": "(0,1)", "Q2, m2": "> 0", "nf": "3..5 (4 in quick)", "orders": "0..3", "paths": "<= 64 per (class, order)"}
@@ -335,6 +382,47 @@ def run(chk, only=None):
                                       ("wiring", dict(kind=kind, flav=flav, proc=proc, sch=sch, nf=nf, zm=list(zm), pto=pto, comp=comp_name, cls=cn, attr="L")),
                                       what=f"{cname}: asymptotic {comp_name} contribution uses another quark's mass")
         chk.section("wiring", cells=len(cells), mass_claims=nw)
+    # ---- the guard is applied where the result is assembled: through the real ESF.compute_local ----
+    if only in (None, "esf"):
+        nclaims = 0
+        for cell in ESF_CELLS:
+            cname = f"esf:{cell['name']}"
+            if not chk.mine(cname):
+                continue
+            with Ctx(chk.seed) as ctx, cm.fixed_nf(), cm.generic_drop_empty(), stubs.cf_stubs():
+                def body(cell=cell):
+                    x = ctx.var("x", 0, 1, wlo=0.02, whi=0.2)
+                    Q2 = ctx.var("Q2", 0, None, wlo=30, whi=90)
+                    m2c = ctx.var("m2c", 0, None, wlo=1, whi=3)
+                    calls, complete = esf_heavy_nc_calls(ctx, cell, x, Q2, m2c)
+                    return calls, complete, x, Q2, m2c
+
+                ex = explore.Explorer(ctx, max_paths=16, timeout_ms=5000)
+                paths = ex.run(body)
+                chk.paths += len(paths)
+                seen = {"nonempty": 0, "empty": 0}
+                for i, p in enumerate(paths):
+                    ctx.assign = dict(p.assign)
+                    if p.kind == "exc":
+                        if not isinstance(p.value, ValueError):
+                            chk.notes.append(f"{cname}/path{i}: raises {type(p.value).__name__}: {str(p.value)[:80]} (C16)")
+                        continue
+                    calls, complete, x, Q2, m2c = p.value
+                    for c, o, rsl, m2 in calls:
+                        if rsl is None or m2 is None or not (".heavy." in c.__module__ and c.__module__.endswith("_nc")):
+                            continue
+                        if rsl.reg is None and rsl.sing is None and rsl.loc is None:
+                            seen["empty"] += 1
+                            continue
+                        seen["nonempty"] += 1
+                        nclaims += 1
+                        chk.prove(f"{cname}/path{i}: {c.__name__}/o{o} convolved only above the hadronic threshold", (Q2 * (1 - x) / x).t > S.lift(4 * m2).t,
+                                  ctx.facts() + p.pc, key=f"esf:{c.__module__.split('.')[-1]}.{c.__name__}:o{o}",
+                                  replay=lambda m, ctx=ctx, cell=cell: ("esf_threshold", dict(cell=cell["name"], **{k: v for k, v in vals(ctx, m, ("x", "Q2", "m2c")).items()})),
+                                  what=f"{cname}: compute_local convolves {c.__name__}/o{o} at or below the hadronic pair threshold")
+                if not (seen["nonempty"] and seen["empty"]):
+                    chk.inconclusive_note(f"{cname}: vacuity -- paths above/below the threshold not both reached ({seen})")
+        chk.section("through_esf", cells=len(ESF_CELLS), claims=nclaims)
     # ---- charged current: slow rescaling point and empty domain ----
     if not chk.first:
         return chk.finish(explanation="shard of C09 (see the merged evidence)", rule="")
